@@ -591,3 +591,39 @@ func vh_C15_setpayload(a []int) {
 }
 
 func init() { vhRegister("vh_C15_setpayload", vh_C15_setpayload) }
+
+// vh_C11_dsse_signed: signing does not change what is signed - the payload of the signed (and dumped) envelope
+// is the valid JSON document SetPayload produced, for strings with control characters too.
+func vh_C11_dsse_signed(a []int) {
+	str := vConcStr(vPick("stdout", "plain", "line\n", "a\r\n\tb", "\x00\x1f", "q\"uote\\\n", "caf\u00e9\n"))
+	l := Link{Type: "link", Name: "n", ByProducts: map[string]interface{}{"stdout": str}, Command: []string{"sh", str}}
+	e := &Envelope{}
+	if err := e.SetPayload(l); err != nil {
+		vAssert("C11.setpayload-succeeds", false)
+		vReach("C11.end")
+		return
+	}
+	before := e.envelope.Payload
+	nsign := a[0]
+	for i := 0; i < nsign; i++ {
+		vAssert("C11.signing-succeeds", e.Sign(vhEdKey(i, true)) == nil)
+	}
+	raw, derr := base64.StdEncoding.DecodeString(e.envelope.Payload)
+	vObserve("signed", derr == nil, string(raw))
+	vAssert("C11.signing-leaves-the-payload-as-it-was-set", e.envelope.Payload == before && e.envelope.PayloadType == "application/vnd.in-toto+json")
+	var generic interface{}
+	vAssert("C11.signed-payload-is-a-valid-json-document", derr == nil && json.Unmarshal(raw, &generic) == nil)
+	for i := 0; i < nsign; i++ {
+		vAssert("C11.signed-envelope-verifies", e.VerifySignature(vhEdKey(i, false)) == nil)
+	}
+	vhFiles = map[string][]byte{}
+	if err := e.Dump("signed.link"); err == nil {
+		back, lerr := LoadMetadata("signed.link")
+		vAssert("C11.signed-envelope-loads-back-to-the-metadata-that-was-set", lerr == nil && vspecCanonLink(back.GetPayload().(Link)) == vspecCanonLink(l))
+	} else {
+		vAssert("C11.dump-succeeds", false)
+	}
+	vReach("C11.end")
+}
+
+func init() { vhRegister("vh_C11_dsse_signed", vh_C11_dsse_signed) }
